@@ -364,7 +364,7 @@ class AbstractHasAxes(AbstractHasMetadata):
         axes = []
         for i, ix in enumerate(idx_tuple):
             ax = self.axes[i][ix]
-            if not np.isscalar(ax): # do not include scalar axes
+            if isinstance(ax, AbstractAxis): # do not include collapsed axes (a label; for a grouped axis: a tuple of labels)
                 axes.append(ax)
         return axes
 
